@@ -63,13 +63,82 @@ def RequiredDefined (O : Oracles) (v : View) : Prop :=
 def PathsPresent (v : View) : Prop :=
   v.hasPaths = true ∧ (v.hasPathItems = true → ∀ k ∈ v.pathKeys, containsEmptyBraces k.toList = false)
 
+/-! ### "items property is required for all schemas/definitions of type `array`" -/
+
+/-- along the chain of `items` of a schema (references followed): every level of type array declares its items (one schema
+    or a tuple), and the pattern of each single-schema items level compiles ("valid patterns") -/
+def itemsDeclared (O : Oracles) (defs : String → Option Schema) : Nat → Schema → Bool
+  | 0, _ => true
+  | fuel + 1, s =>
+    if s.base.ref != "" then
+      (match defs s.base.ref with
+       | some t => itemsDeclared O defs fuel t
+       | none => true)
+    else if !s.base.types.contains "array" then true
+    else match s.itemsS, s.itemsT with
+      | none, [] => false
+      | none, _ :: _ => true
+      | some it, _ => patOK O ((chase defs 64 it).getD it).base.pattern && itemsDeclared O defs fuel it
+
+/-- a parameter: an array declares its items at every level of its `items` chain; a body parameter's schema likewise -/
+def ParamDeclaresItems (O : Oracles) (defs : String → Option Schema) (p : Param) : Prop :=
+  ¬ (p.type = "array" ∧ p.itemsType = "")
+  ∧ (p.loc ≠ "body" → itemsChainOK p.items = true)
+  ∧ (p.loc = "body" → ∀ s, p.schema = some s → itemsDeclared O defs 64 s = true)
+
+def ResponseDeclaresItems (O : Oracles) (r : Response) : Prop :=
+  (∀ h ∈ r.headers, ¬ (h.type = "array" ∧ h.itemsType = ""))
+  ∧ (∀ s, r.schema = some s → itemsDeclared O (fun _ => none) 64 s = true)
+
+def ArraysDeclareItems (O : Oracles) (defs : String → Option Schema) (v : View) : Prop :=
+  ∀ o ∈ v.ops, (∀ p ∈ o.params, ParamDeclaresItems O defs p) ∧ (∀ r ∈ o.rawResponses, ResponseDeclaresItems O r)
+
+/-! ### inheritance: "definition's ancestor can't be a descendant of the same model", "definition can't declare a
+    property that's already defined by one of its ancestors" -/
+
+/-- The walk down the ancestry of `sch` — through `$ref` (alias chains resolved by `chase`) and through the allOf members
+    that are references or anonymous allOf — having followed the references in `path`, follows one of them again within
+    `n` levels of nesting. -/
+inductive Revisits (defs : String → Option Schema) : Nat → Schema → List String → Prop
+  | hit {n : Nat} {sch schc : Schema} {path : List String} :
+      sch.base.ref ≠ "" → chase defs 64 sch = some schc → sch.base.ref ∈ path → Revisits defs (n + 1) sch path
+  | down {n : Nat} {sch schc chld : Schema} {path : List String} :
+      ¬ (sch.base.ref = "" ∧ sch.allOf = []) → chase defs 64 sch = some schc →
+      ¬ (sch.base.ref ≠ "" ∧ sch.base.ref ∈ path) → chld ∈ ancestryKids schc →
+      Revisits defs n chld (if sch.base.ref ≠ "" then sch.base.ref :: path else path) →
+      Revisits defs (n + 1) sch path
+
+/-- no ancestor of definition `k` is its own ancestor (the walk starts with the definition itself on the path);
+    64 = the nesting depth the model follows -/
+def NoCircularAncestry (defs : String → Option Schema) (k : String) (sch : Schema) : Prop :=
+  ¬ Revisits defs 64 sch [defRef k]
+
+/-- the property names declared along the ancestry of `sch`: those of the leaves of its allOf tree, references followed -/
+def leafNames (defs : String → Option Schema) : Nat → Schema → List String
+  | 0, _ => []
+  | fuel + 1, sch =>
+    match chase defs 64 sch with
+    | none => []
+    | some schc =>
+      if !schc.allOf.isEmpty then (schc.allOf.map fun c => leafNames defs fuel c).flatten
+      else akeys schc.props
+
+/-- no property name is declared twice along the ancestry -/
+def NoDuplicateInheritedProperty (defs : String → Option Schema) (sch : Schema) : Prop :=
+  (leafNames defs 64 sch).Nodup
+
+/-- both inheritance rules, for every definition that inherits -/
+def InheritanceRules (v : View) : Prop :=
+  ∀ ds ∈ v.defs, ds.2.allOf ≠ [] →
+    NoCircularAncestry (defsLookup v) ds.1 ds.2 ∧ NoDuplicateInheritedProperty (defsLookup v) ds.2
+
 def RulesHold (O : Oracles) (v : View) : Prop :=
   v.refsResolve = true
   ∧ UniqueOperationIds v
-  ∧ duplicatePropertyErrs (defsLookup v) v.defs = []          -- inheritance rules: as computed (no independent statement yet)
+  ∧ InheritanceRules v
   ∧ (v.strict = true → NoOverlap v.ops)
   ∧ (∀ o ∈ v.ops, OperationRules O o)
-  ∧ itemsErrs O (fun _ => none) v = []                        -- arrays declare items: the chain predicate is its own statement
+  ∧ ArraysDeclareItems O (fun _ => none) v
   ∧ RequiredDefined O v
   ∧ PathsPresent v
 
